@@ -2,34 +2,38 @@
 //! input  = (g swap sid norm a b na nb)   a, b as cluster lists from the real CharString;
 //!          `distances` is called on the first na of [a,b,a] and the first nb of [b,a,b] (na, nb <= 3), or on
 //!          a large batch alternating between the text and its first character (na, nb > 3)
-//! output = (dist pdist ops dists)        dist/pdist: the f64 as an exact rational (num den),
-//!          den = 0 for NaN/inf; ops: ((op i j) ..) op 0..3 = Insert Delete Replace Swap;
-//!          dists: option of a list of rationals (None = Err)
+//! output = (dist pdist ops dists)        dist/pdist: the f64 as the fields of its 64 bits (k s m e),
+//!          compared bit for bit with the binary64 model; ops: ((op i j) ..) op 0..3 = Insert Delete
+//!          Replace Swap; dists: option of a list of floats (None = Err)
 use text_utils::edit::{distance, distances, operations, prefix_distance, EditOperation};
 use vh::*;
 
 struct C12;
 
-/// exact rational value of a finite f64 (|x| < 2^6 here): x = num / 2^k
+/// an f64 as the fields of `to_bits`: (k s m e) — k = 0 zero, 1 finite non-zero (value m * 2^e with the
+/// canonical 53-bit or subnormal mantissa), 2 infinity, 3 NaN; s = 1 for negative.  The model's `fl_v`
+/// prints the same fields, so equality of the values is equality of the 64 bits.
 fn f64_val(x: f64) -> Val {
-    if x.is_nan() {
-        return Val::L(vec![Val::I(0), Val::I(0)]);
+    let bits = x.to_bits();
+    let s = (bits >> 63) as i64;
+    let exp = ((bits >> 52) & 0x7ff) as i64;
+    let frac = (bits & ((1u64 << 52) - 1)) as i64;
+    let l = |k: i64, s: i64, m: i64, e: i64| Val::L(vec![Val::I(k), Val::I(s), Val::I(m), Val::I(e)]);
+    if exp == 0x7ff {
+        if frac == 0 {
+            l(2, s, 0, 0)
+        } else {
+            l(3, 0, 0, 0)
+        }
+    } else if exp == 0 {
+        if frac == 0 {
+            l(0, s, 0, 0)
+        } else {
+            l(1, s, frac, -1074)
+        }
+    } else {
+        l(1, s, frac | (1i64 << 52), exp - 1075)
     }
-    if x.is_infinite() {
-        return Val::L(vec![Val::I(if x > 0.0 { 1 } else { -1 }), Val::I(0)]);
-    }
-    let mut y = x;
-    let mut k = 0u32;
-    // multiplication by 2 is exact
-    while y.fract() != 0.0 && k < 60 {
-        y *= 2.0;
-        k += 1;
-    }
-    if y.fract() != 0.0 || y.abs() >= 4.0e18 {
-        // not representable in the exchange format: report as non-finite
-        return Val::L(vec![Val::I(0), Val::I(0)]);
-    }
-    Val::L(vec![Val::I(y as i64), Val::I(1i64 << k)])
 }
 
 fn op_val(o: &(EditOperation, usize, usize)) -> Val {
@@ -263,8 +267,11 @@ impl Prop for C12 {
         let la: Vec<String> = batch(&a, &b, &l[4], na);
         let lb: Vec<String> = batch(&b, &a, &l[5], nb);
         let (a2, b2) = (a.clone(), b.clone());
+        let kf2_flag = std::sync::Arc::new(std::sync::atomic::AtomicBool::new(false));
+        let kf2_w = kf2_flag.clone();
         let out = guard(move || {
             let d = distance(&a2, &b2, g, swap, sid, norm);
+            kf2_w.store(d > 1.0, std::sync::atomic::Ordering::SeqCst);
             let pd = prefix_distance(&a2, &b2, g, swap, sid, norm);
             let ops = operations(&a2, &b2, g, swap, sid);
             let ds = distances(&la, &lb, g, swap, sid, norm).ok();
@@ -275,6 +282,7 @@ impl Prop for C12 {
                 Val::opt(ds, |v| Val::list(v.iter(), |x| f64_val(*x))),
             ])
         });
+        let kf2 = kf2_flag.load(std::sync::atomic::Ordering::SeqCst);
         let mut tags: Vec<String> = vec![];
         tags.push(if g { "g" } else { "cp" }.into());
         if swap {
@@ -287,14 +295,8 @@ impl Prop for C12 {
             tags.push("norm".into());
         }
         // KF2 class: spaces_insert_delete_only, normalized, result > 1
-        if sid && norm {
-            if let Some(Val::L(d)) = out.nth(0) {
-                if let (Some(n), Some(dn)) = (d.first().and_then(|v| v.as_i()), d.get(1).and_then(|v| v.as_i())) {
-                    if dn > 0 && n > dn {
-                        tags.push("class:KF2".into());
-                    }
-                }
-            }
+        if sid && norm && kf2 {
+            tags.push("class:KF2".into());
         }
         // non-trivial: different texts of >= 2 characters each whose script has >= 2 operations
         let (ca, cb) = (l[4].as_l()?.len(), l[5].as_l()?.len());
